@@ -141,6 +141,7 @@ def gen_case(rng: random.Random, *, regex_rate=0.2, index_schema_rate=0.3, confo
         "strict": "yes" if rng.random() < 0.35 else "no",
         "ordered": rng.random() < 0.25,
         "unique": uniq, "reportDup": rng.choice(["first", "last", "none"]),
+        "coerce": False, "addMissing": False, "dropInvalid": False,
     }
     D = {"cols": frame_cols, "index": index, "nrows": n}
     return {"schema": S, "frame": D}
